@@ -1,6 +1,7 @@
 """C14: GenBank and GFF3 descriptions of the same genes give the same mutations."""
 import common as cm
 import cmdlayer
+import random
 import loclayer
 import gen
 import anno
@@ -45,12 +46,26 @@ def generate(ctx):
         ref_row, rows = anno.make_msa(rng, genome, rng.randint(1, 3))
         msa, recs = vcommon.build_msa(rng, ref_row, rows, refpos="first")
         append = rng.random() < 0.6
+        refid = "REF"
+        # one group in three: no --reference, the sequence of the annotation itself is the reference (ORIGIN / ##FASTA); the
+        # alignment then has no reference row and no insertion columns, and one of its records may carry the very name the
+        # annotation gives its sequence (ref in the GFF3, TEST in the LOCUS line): it is a query like any other, in both formats
+        wr = random.Random(7 * g + L)
+        if wr.random() < 0.34:
+            ref_row = genome
+            rows = [gen.mutate(wr, genome, p_sub=0.12, p_amb=0.04, p_gap=0.03, p_lower=0.0).replace("?", "N") for _ in range(wr.randint(2, 4))]
+            recs = [("q%d" % i, r) for i, r in enumerate(rows)]
+            if wr.random() < 0.7:
+                k = wr.randrange(len(recs))
+                recs[k] = (wr.choice(["ref", "ref", "TEST", "annotation_fasta"]), genome if wr.random() < 0.4 else recs[k][1])
+            msa = gen.layout(wr, recs, "plain")
+            refid = ""
         nt = any(f.strand == "-" or len(f.segments) > 1 or f.codon_start > 1 for f in feats)
         for suffix in ("gb", "gff"):
             annob = anno.render_genbank(genome, feats, rng) if suffix == "gb" else anno.render_gff(genome, feats, mix=rng)
-            c = vcommon.variants_case(cid, msa, "REF", annob, suffix, {"kind": suffix, "nontrivial": nt, "group": g},
+            c = vcommon.variants_case(cid, msa, refid, annob, suffix, {"kind": suffix + ("" if refid else ":reference-from-annotation"), "nontrivial": nt, "group": g},
                                       append_snps=append,
-                                      info={"ref_row": ref_row, "queries": [(nm, r) for nm, r in recs if nm != "REF"],
+                                      info={"ref_row": ref_row, "queries": [(nm, r) for nm, r in recs if nm != ("REF" if refid else "annotation_fasta")],
                                             "features": feats, "genbank": True})
             f = c["coq"]
             c["coq"] = (lambda f=f, a=coq_ast(genome, feats): (lambda obs: "(%s, %s)" % (a, f(obs))))()
@@ -95,6 +110,14 @@ def extra(ctx, obl, cases, obs):
     # the location strings themselves, byte level: implementation = LocationModel.v = the location AST
     cm.coq_make(["theories/Check_Loc.vo"], ctx.log)
     _cmd_state.update(loclayer.run(ctx, 250 if ctx.tier == "quick" else 4000))
+    # whole annotation files, byte level: sections / directives / line ends / wrapped locations; implementation = GenbankFile.v, GffFile.v = the parts written
+    import annofile
+    cm.coq_make(["theories/Check_AnnoFile.vo"], ctx.log)
+    _cmd_state.update(annofile.run(ctx, 200 if ctx.tier == "quick" else 3000))
+    # ... and from those bytes to the regions the variant callers use: implementation = ConsumerModel.v = what the feature AST denotes
+    import regionlayer
+    cm.coq_make(["theories/Check_Consumers.vo"], ctx.log)
+    _cmd_state.update(regionlayer.run(ctx, 120 if ctx.tier == "quick" else 2000))
 
 
 _cmd_state = {}
